@@ -5,9 +5,72 @@ corresponding application (content, deleted flag, permissions) and nothing panic
 from props import common, l1common, l1gen
 
 ID = "C04"
+NEEDS_BINARY = True
 TRUSTED_BASE = common.BASE_TRUSTED + [
-    "C04: rename undo (move_out/move_in) and the reject/backup walks of the drivers are covered by the tree-level checks (C05/C08), not by this file-level theorem",
+    "C04: rename undo (move_out/move_in) and the backup walk of the drivers are covered by the tree-level checks (C05/C08); the undo walk of a failing patch is run here through the binary (tree_undo) and compared with the L3 model",
 ]
+
+
+def tree_undo(ctx):
+    """the undo walk of the drivers (theorems C04_tree_*, C04_tree_whole_history): a patch with SEVERAL file patches for one
+    file - each changing the number of lines above the next one's change - and one failing hunk is pushed; every file
+    patch that applied is undone, newest first, so the tracked files are the starting ones, byte for byte, and nothing
+    aborts (seeded C04-h: undoing in the order of application puts lines back at the wrong place or panics)"""
+    from props import l3common, l3gen, ws
+    rng = ctx.rng
+    n = 60 if ctx.tier == "thorough" else 12
+    cases, bad = [], 0
+    for i in range(n):
+        nlines = rng.randint(8, 30)
+        lines = [b"line %d\n" % k for k in range(nlines)]
+        cur = list(lines)
+        text = b""
+        nfp = rng.randint(2, 4)
+        fail_at = rng.randrange(nfp + 1)          # position of the failing file patch among them (nfp = behind all)
+        bad_fp = b"--- a/f.txt\n+++ b/f.txt\n@@ -1 +1 @@\n-this line is not there\n+x\n"
+        other = rng.random() < 0.4
+        for k in range(nfp):
+            if k == fail_at:
+                text += bad_fp
+            new = list(cur)
+            # change the number of lines near the top, and a line further down
+            at = rng.randrange(0, max(1, len(new) // 3))
+            if rng.random() < 0.5:
+                new[at:at] = [b"added %d.%d\n" % (k, j) for j in range(rng.randint(1, 3))]
+            else:
+                del new[at:at + rng.randint(1, 2)]
+            low = rng.randrange(len(new) // 2, len(new))
+            if rng.random() < 0.5:
+                new[low] = b"changed %d\n" % k
+            else:
+                del new[low]
+            text += l3gen.file_patch_text(rng, b"a/f.txt", b"b/f.txt", cur, new, rng.choice([0, 1, 3]), "plain")
+            cur = new
+            if other and k == 0:
+                text += b"--- a/g.txt\n+++ b/g.txt\n@@ -1 +1 @@\n-keep\n+kept\n"
+        if fail_at == nfp:
+            text += bad_fp
+        w = {"files": {b"f.txt": (b"".join(lines), 0o644), b"g.txt": (b"keep\n", 0o600)}, "dirs": [], "applied": None,
+             "series": b"p.patch\n", "patches": {b"p.patch": text}}
+        cfg = l3common.rand_cfg(rng, threads=(1, 2))
+        cfg["goal"] = ("A",)
+        cases.append((w, cfg))
+        real, _, _ = l3gen.run_real(ctx.binary, w, cfg)
+        probs = []
+        if l3common.exit_of(real) != "1":
+            probs.append("exit status %s of a push whose only patch has a failing hunk" % l3common.exit_of(real))
+        want = sorted("F %s %d %s" % (l3gen.canon_path(k), m, l3gen.hx(d)) for k, (d, m) in w["files"].items())
+        got = sorted(x for x in l3common.tracked(real) if x.split()[1] != l3gen.canon_path(b"series"))
+        if got != want:
+            probs.append("tracked files after the failed push are not the starting ones: %s" % [x[:90] for x in got if x not in want][:2])
+        if probs:
+            bad += 1
+            if bad <= 2:
+                ctx.violation({"kind": "undo-does-not-restore", "level": "tree", "problems": probs, "workspace": l3common.ws_json(w),
+                               "cfg": l3common.cfg_json(cfg)})
+    l3common.compare(ctx, cases, "several file patches for one file in a failing patch")
+    ctx.coverage["tree_undo_pushes"] = len(cases)
+    ws.cleanup_all()
 
 
 def undo_ok(c, out):
@@ -51,6 +114,7 @@ def run(ctx):
         ctx_.coverage["statement_checks"] = ctx_.coverage.get("statement_checks", 0) + len(cases)
         return res
 
+    tree_undo(ctx)
     common.differential = differential
     try:
         extra = {"stacks-more": [l1gen.gen_stack(ctx.rng) for _ in range(4000 if ctx.tier == "thorough" else 1000)]}
@@ -62,6 +126,17 @@ def run(ctx):
 
 def replay(ctx, payload):
     c = payload.get("case")
+    if payload.get("level") == "tree" and "workspace" in payload:
+        from props import l3common, l3gen
+        w, cfg = l3common.ws_from_json(payload["workspace"]), l3common.cfg_from_json(payload["cfg"])
+        real, _, _ = l3gen.run_real(ctx.binary, w, cfg)
+        want = sorted("F %s %d %s" % (l3gen.canon_path(k), m, l3gen.hx(d)) for k, (d, m) in w["files"].items())
+        got = sorted(x for x in l3common.tracked(real) if x.split()[1] != l3gen.canon_path(b"series"))
+        ctx.coverage.update({"evaluations": 1, "distinct_nontrivial": 1, "rule": "replay of one recorded push"})
+        if got != want or l3common.exit_of(real) != "1":
+            ctx.violation({"kind": "undo-does-not-restore", "level": "tree", "workspace": payload["workspace"], "cfg": payload["cfg"],
+                           "problems": ["exit %s; tracked files differ from the starting ones: %s" % (l3common.exit_of(real), got != want)]})
+        return
     if not c:
         return run(ctx)
     l = l1gen.encode(c)
